@@ -36,6 +36,10 @@ type Case struct {
 	// dimension quick return, workspace query) are passed as nil (1) or one
 	// element shorter than otherwise required (2).
 	Loose int `json:",omitempty"`
+	// Big > 1 multiplies every raw dimension (valid calls only) so that the
+	// blocked code paths and the BLAS kernels behind them run on exactly minimal,
+	// guard-page backed slices.
+	Big int `json:",omitempty"`
 }
 
 // operand is a slice argument embedded in a larger sentinel-filled parent.
@@ -112,6 +116,8 @@ type env struct {
 	// tag is appended to the keys of valid-call failures (a degenerate sub-domain
 	// of a routine that is reported separately).
 	tag string
+	// via names the known-defective callee a runtime fault was raised in.
+	via string
 	res      vk.Result
 }
 
@@ -153,7 +159,12 @@ func (e *env) query() bool { return e.c.Mode == "query" || e.c.Fault == "queryEm
 func (e *env) guard() bool { return e.c.Mode == "guardE" || e.c.Mode == "guardS" }
 
 // d returns raw dimension i.
-func (e *env) d(i int) int { return e.c.D[i] }
+func (e *env) d(i int) int {
+	if e.c.Big > 1 {
+		return e.c.D[i] * e.c.Big
+	}
+	return e.c.D[i]
+}
 
 // pad returns leading-dimension padding i.
 func (e *env) pad(i int) int {
